@@ -392,7 +392,7 @@ def r4_algebra(repo: Repo, rep):
         rep.saw(fi)
         rets = [dump(p.ret) for p in paths(fi.node) if p.ret is not RAISE]
         a, b = fi.params[1], fi.params[2]
-        rep.check(R, sorted(rets) == sorted([b, f"{a} | {b}"]), fi.site(), fi.fq, "_set_sampled_points appends behind the accumulated points", str(rets), str(rets))
+        rep.check(R, set(rets) == {b, f"{a} | {b}"}, fi.site(), fi.fq, "_set_sampled_points appends behind the accumulated points", str(rets), str(rets))
     fi = base.methods.get("_sample_params_independent")
     if fi is not None:
         rep.saw(fi)
